@@ -54,7 +54,15 @@ func (o *Outcome) Violate(clause, sig, format string, args ...any) {
 	o.Violations = append(o.Violations, Violation{Clause: clause, Sig: sig, Detail: fmt.Sprintf(format, args...)})
 }
 
-func (o *Outcome) Class(c string) { o.Classes = append(o.Classes, c) }
+// Class files the case under a class (once per case, however often it is called).
+func (o *Outcome) Class(c string) {
+	for _, x := range o.Classes {
+		if x == c {
+			return
+		}
+	}
+	o.Classes = append(o.Classes, c)
+}
 
 // Spec describes one property check.
 type Spec[C any] struct {
